@@ -121,11 +121,16 @@ thorough: all 729 length-3 histories), on the triclinic 2-atom 2×1×1 cell with
 (288 reals).  Gonze–Lee NAC runs with concrete Born charges (the short-range force constants are computed through the
 bridge on symbolic fc).  `copy()` is documented to drop force constants and NAC parameters and is not part of the histories.  Getter/setter copy
 semantics are ground facts.  Quick 82 s."""
-AS["C16"] = """**As built** (`checks/c16.py`).  The dataset conversion as planned (displaced-atom index enumerated,
+AS["C16"] = """**As built** (`checks/c16.py`; a `yaml` ground-fact unit was added after the second seed round: a default
+`PhonopyYaml` dump does not depend on earlier dumps with other settings, and cells, both dataset types and force constants
+read back as written — evaluated on one concrete object, not a solver claim).  The dataset conversion as planned (displaced-atom index enumerated,
 not symbolic) and, new, **BORN expansion**: `file_IO._expand_borns` in E2 on symbolic Born tensors that respect the
 crystal symmetry (space-group average of free reals, self-tested) must regenerate the tensors of dependent atoms for
 all values, on crystals with 3-, 4-fold, screw and mirror-related atoms.  File round trips remain outside.  Quick 1 s."""
-AS["C17"] = """**As built** (`checks/c17.py`).  Units as planned (E3 lives inside the check: the AST of `units.py` is
+AS["C17"] = """**As built** (`checks/c17.py`; a `roundtrip` ground-fact unit was added after the second seed round:
+`write_crystal_structure` → `read_crystal_structure` for the 8 interfaces that need no calculator-specific extras on three
+concrete cells — triclinic with interleaved species in non-ascending Z order and positions outside [0,1), hexagonal
+cation-first, three species — comparing metric tensors and (species, position mod 1) multisets; not a solver claim).  Units as planned (E3 lives inside the check: the AST of `units.py` is
 re-read on every run); new **lattice** unit: `wien2k._transform_axis`, `cells.get_cell_matrix` and the CP2K
 `abc/alpha_beta_gamma` branch run in E2 with symbolic lengths and angles (cos/sin uninterpreted with sin²+cos² = 1),
 Gram matrix compared with (a², b², c², bc cos α, ca cos β, ab cos γ); CrossHair on `sort_positions_by_symbols`;
